@@ -79,6 +79,13 @@ func main() {
 			usage()
 		}
 		forEachCase(os.Args[2], runCase)
+	case "conc":
+		if dn, err := os.OpenFile(os.DevNull, os.O_WRONLY, 0); err == nil {
+			os.Stdout = dn
+		}
+		concRuns(os.Args[2])
+	case "confine":
+		confineRun(os.Args[2])
 	case "dump-surface":
 		dumpSurface(os.Args[2])
 	case "deadline":
